@@ -150,7 +150,7 @@ Done == pc = "done"
 \* the observation record of Forest.tla for the terminal state
 Val(v) == IF kind = "cls" THEN LabelVals[v] ELSE v * FxScale
 Obs == [kind |-> kind, nTrees |-> T, trees |-> T, nTrain |-> n, nAll |-> n,
-        y |-> [i \in 1..n |-> Val(y[i])], ySlack |-> 0,
+        y |-> [i \in 1..n |-> Val(y[i])], ySlack |-> 0, rowExp |-> [i \in 1..n |-> 0],
         keep |-> keep, hasMask |-> keep, mask |-> mask,
         tpOk |-> TRUE, treePred |-> [tt \in 1..T |-> [rr \in 1..n |-> Val(tp[tt][rr])]],
         predOk |-> TRUE, pred |-> pred, predDigest |-> "model", predDigest2 |-> "model",
